@@ -615,6 +615,10 @@ def run(tier, seed, ev, vd):
     cli_v, stage_v = judge([(all_res[p.base], all_res[p.two], p.motion) for p in cli_pairs],
                            [[(all_res[p.base], all_res[p.two], p.motion) for p in g] for g in group_list], ev, tier)
     report(cli_pairs, cli_v, group_list, stage_v, all_res, nh3, ev, vd)
+    # the pipeline composition itself (spec/Martinize.tla): stage order and contracts for every option vector, replayed into entry()
+    if not os.environ.get('C11_PLAN'):
+        from . import pipeline
+        pipeline.run_part(tier, seed, ev, vd)
 
 
 def report(cli_pairs, cli_v, group_list, stage_v, all_res, nh3, ev, vd):
@@ -701,6 +705,9 @@ def report(cli_pairs, cli_v, group_list, stage_v, all_res, nh3, ev, vd):
 def replay(sc):
     """Re-run one recorded pair on its route and let TLC judge it again."""
     global _SCRATCH
+    if sc.get('family') == 'pipeline':
+        from . import pipeline
+        return pipeline.replay(sc)
     _SCRATCH = tlc.scratch('c11r_')
     inp, options, kinds = sc['input'], sc['options'], sc['kinds']
     base = open(INPUTS[inp]).read()
@@ -725,6 +732,8 @@ def replay(sc):
 def selftest(seed):
     global _SCRATCH
     import copy
+    from . import pipeline
+    pipeline.selftest_part(seed)
     _SCRATCH = tlc.scratch('c11s_')
     base = open(INPUTS['trpcage']).read()
     opts = OPTION_SETS['elastic']
